@@ -62,14 +62,16 @@ fn add_stats(stats: &mut Stats, o: &XRunObs) {
     stats.add("F5_collections", s.collections);
     stats.add("F5_nodes_collected", s.collected_nodes);
     stats.add("xml_pauses_script", s.pauses_script);
+    stats.add("F11_script_detached_an_element", s.script_removals);
 }
 
 impl XmlWorld {
     fn knobs(&self) -> SchedKnobs {
         match self.prop {
-            XProp::C15 | XProp::C08 => SchedKnobs { allow_inject: false, allow_collect: false, allow_truncate: false, allow_end_at_pause: false },
-            XProp::C04 => SchedKnobs { allow_inject: false, allow_collect: true, allow_truncate: true, allow_end_at_pause: true },
-            XProp::C05 | XProp::C18 => SchedKnobs { allow_inject: false, allow_collect: true, allow_truncate: true, allow_end_at_pause: false },
+            XProp::C15 | XProp::C08 => SchedKnobs { allow_inject: false, allow_collect: false, allow_truncate: false, allow_end_at_pause: false, allow_script_dom: false },
+            XProp::C04 => SchedKnobs { allow_inject: false, allow_collect: true, allow_truncate: true, allow_end_at_pause: true, allow_script_dom: false },
+            XProp::C05 => SchedKnobs { allow_inject: false, allow_collect: true, allow_truncate: true, allow_end_at_pause: false, allow_script_dom: false },
+            XProp::C18 => SchedKnobs { allow_inject: false, allow_collect: true, allow_truncate: true, allow_end_at_pause: false, allow_script_dom: true },
         }
     }
 
